@@ -17,6 +17,7 @@ import (
 // Obligation is one verification condition: Assumptions ==> Goal.
 type Obligation struct {
 	Retried bool
+	St      *Symtab // symbol table of the function the obligation was generated from (nil: the caller's)
 	Name   string   // e.g. A/searchNode4/ret#1/ensures#1
 	Func   string   // function it was generated from
 	Kind   string   // safety | requires | ensures | invariant | lemma | cover | ...
@@ -46,6 +47,7 @@ type SolverCfg struct {
 	CacheDir     string
 	NoCache      bool
 	KeepDir      string // where to keep failed queries
+	NoRetry      func(o *Obligation) bool // obligations whose failure is expected (known findings): no second attempt
 }
 
 var solverVersions = map[string]string{"z3-new": "5.1.0", "z3": "4.8.12", "cvc5": "1.0.3"}
@@ -62,6 +64,9 @@ const smtHeader = `(set-logic ALL)
 func (o *Obligation) Query(st *Symtab) string {
 	if o.rawQuery != "" {
 		return o.rawQuery
+	}
+	if o.St != nil {
+		st = o.St
 	}
 	var body strings.Builder
 	for _, a := range o.Assume {
@@ -203,7 +208,7 @@ func Discharge(o *Obligation, st *Symtab, cfg *SolverCfg) {
 			}
 		}
 		if len(light) < len(o.Assume) {
-			lo := &Obligation{Assume: light, Goal: o.Goal}
+			lo := &Obligation{Assume: light, Goal: o.Goal, St: o.St}
 			r0, _, d0 := runSolver(ctx, "z3-new", lo.Query(st), 2*time.Second, false)
 			o.TimeS += d0
 			if r0 == "unsat" {
@@ -350,10 +355,13 @@ func DischargeAll(obs []*Obligation, st *Symtab, cfg *SolverCfg, workers int) {
 	var undecided []*Obligation
 	for _, o := range obs {
 		if !o.Cover && o.Result != "unsat" && o.Result != "sat" && o.Solver != "simplifier" && o.Solver != "static-analysis" {
+			if cfg.NoRetry != nil && cfg.NoRetry(o) {
+				continue
+			}
 			undecided = append(undecided, o)
 		}
 	}
-	if len(undecided) == 0 || cfg.Agree {
+	if len(undecided) == 0 || cfg.Agree || os.Getenv("VERIF_NORETRY") == "1" {
 		return
 	}
 	cfg2 := *cfg
